@@ -20,12 +20,44 @@ let pad k l = let l = take k l in l @ List.init (k - List.length l) (fun _ -> N0
 
 type ctx = NoCtx | A of aes_ctx | D of des_ctx | T of tdes_ctx
 
+(* xorshift64* byte stream, as in the C driver: "#<seed>:<len>" *)
+let prng_bytes (seed : int64) (n : int) : n list =
+  let x = ref (if seed = 0L then 0x9E3779B97F4A7C15L else seed) in
+  let buf = Bytes.create n in
+  let i = ref 0 in
+  while !i < n do
+    x := Int64.logxor !x (Int64.shift_right_logical !x 12);
+    x := Int64.logxor !x (Int64.shift_left !x 25);
+    x := Int64.logxor !x (Int64.shift_right_logical !x 27);
+    let v = Int64.mul !x 2685821657736338717L in
+    let b = ref 0 in
+    while !b < 8 && !i < n do
+      Bytes.set buf !i (Char.chr (Int64.to_int (Int64.logand (Int64.shift_right_logical v (8 * !b)) 255L)));
+      incr b; incr i
+    done
+  done;
+  let rec go k acc = if k < 0 then acc else go (k - 1) (bytes_tab.(Char.code (Bytes.get buf k)) :: acc) in
+  go (n - 1) []
+
+(* one context slot: context, block size, caller-held state, previous / current phase outputs *)
+type slot = { ctx : ctx ref; bs : int ref; st : st ref; prev : n array ref; cur : n list list ref }
+let fresh_slot () = { ctx = ref NoCtx; bs = ref 16; st = ref { s_iv = pad 16 []; s_off = N0; s_sb = pad 16 [] };
+                      prev = ref [||]; cur = ref [] }
+
 let handle (lines : string list) : unit =
-  let ctx = ref NoCtx and bs = ref 16 in
-  let st = ref { s_iv = pad 16 []; s_off = N0; s_sb = pad 16 [] } in
-  let prev = ref [||] and cur = ref [] in       (* cur: list of output chunks, most recent first *)
+  let slots = Array.init 4 (fun _ -> fresh_slot ()) in
+  let cs = ref 0 in
   List.iter (fun l ->
+    let sl = slots.(!cs) in
+    let ctx = sl.ctx and bs = sl.bs and st = sl.st and prev = sl.prev and cur = sl.cur in   (* cur: output chunks, most recent first *)
     match words l with
+    | ["use"; k] -> (match int_of_string_opt k with Some k when k >= 0 && k < 4 -> cs := k | _ -> ())
+    | ["share"; k] ->
+      (match int_of_string_opt k with
+       | Some k when k >= 0 && k < 4 && k <> !cs ->
+         prev := Array.of_list (List.concat (List.rev !cur)); cur := [];
+         ctx := !(slots.(k).ctx); bs := !(slots.(k).bs)
+       | _ -> ())
     | "setkey" :: a :: o :: m :: bits :: khex :: rest ->
       let nulls = match rest with x :: _ -> x | [] -> "-" in
       let has c = String.contains nulls c in
@@ -36,7 +68,8 @@ let handle (lines : string list) : unit =
       let e =
         if a = "aes" then begin
           bs := 16;
-          let (e, c) = aes_set_key (not (has 'k')) (not (has 'c')) o m (n_of_int (max 0 (int_of_string bits))) key in
+          (* the key size is the C int itself (negative values included): aes_set_key_int *)
+          let (e, c) = aes_set_key_int (not (has 'k')) (not (has 'c')) o m (z_of_int (int_of_string bits)) key in
           (match c with Some c -> ctx := A c; ks := " ks=" ^ hex (impl_aes_ctx_bytes (n_of_int (max 0 (int_of_string bits))) key) | None -> ()); e end
         else if a = "des" then begin
           bs := 8;
@@ -47,6 +80,8 @@ let handle (lines : string list) : unit =
           let k1 = pad 8 key and k2 = pad 8 (drop 8 key) and k3 = pad 8 (drop 16 key) in
           let (e, c) = tdes_set_key (not (has 'k')) (not (has '2')) (not (has '3')) (not (has 'c')) o m k1 k2 k3 in
           (match c with Some c -> ctx := T c; ks := " ks=" ^ hex (impl_tdes_ctx_bytes o m k1 k2 k3) | None -> ()); e end in
+      (* a refused set_key yields no context: the key-schedule area is left alone *)
+      if e <> OK then ks := " ks=untouched";
       print_endline ("setkey " ^ errname e ^ !ks)
     | ["state"; ivh; off; sbh] ->
       st := { s_iv = pad 16 (unhex ivh); s_off = n_of_string off; s_sb = pad 16 (unhex sbh) }
@@ -59,6 +94,13 @@ let handle (lines : string list) : unit =
               let s = int_of_string s and l = int_of_string l in
               if s < 0 || l < 0 || s + l > Array.length !prev then None
               else Some (Array.to_list (Array.sub !prev s l))
+            | _ -> None end
+          else if String.length dh > 0 && dh.[0] = '#' then begin
+            match String.split_on_char ':' (String.sub dh 1 (String.length dh - 1)) with
+            | [sd; l] ->
+              (match Int64.of_string_opt ("0u" ^ sd), int_of_string_opt l with
+               | Some sd, Some l when l >= 0 && l <= (1 lsl 26) -> Some (prng_bytes sd l)
+               | _ -> None)
             | _ -> None end
           else Some (unhex dh) in
         match data with
